@@ -1,10 +1,19 @@
 /* C15 driver (real library, real threads, real futex): one timed entry point with one deadline per process.
    usage: deadline_driver <entry> <kind> <sec> <nsec>
      entry: cv | mu | note | counter | waitn
-     kind : abs  -> deadline = {sec,nsec} literally
-            rel  -> deadline = now + sec s + nsec ns  (sec may be negative)
-            none -> nsync_time_no_deadline (a helper thread produces the event after 100 ms)
-   prints: "<result-class> elapsed_ms=<n> ret=<r>" where result-class is TIMEOUT / EVENT / OTHER. */
+     kind : abs   -> deadline = {sec,nsec} literally
+            rel   -> deadline = now + sec s + nsec ns  (sec may be negative)
+            none  -> nsync_time_no_deadline
+            absh / relh -> like abs / rel, meant for deadlines FAR in the future
+            maxm1 -> one nanosecond below nsync_time_no_deadline (the library's own constant)
+     For none, absh, relh and maxm1 a helper thread produces the awaited event after 100 ms (such a wait must behave like
+     "never times out": it must end by the event, not by ETIMEDOUT).
+   prints: "<result-class> elapsed_ms=<n> ret=<r> early=<0|1> since_dl_ms=<n>" where result-class is TIMEOUT / EVENT / OTHER,
+     elapsed_ms    = CLOCK_MONOTONIC time spent inside the call,
+     early         = the call reported its timeout result while CLOCK_REALTIME, read AFTER the call returned, was still before the
+                     deadline (compared field by field here, not with the library's own nsync_time_cmp),
+     since_dl_ms   = CLOCK_MONOTONIC time from the instant just BEFORE the deadline was computed to the return of the call
+                     (for kind rel: >= the requested offset whenever the deadline has really been reached). */
 #include "nsync.h"
 #include <stdio.h>
 #include <stdlib.h>
@@ -12,6 +21,7 @@
 #include <errno.h>
 #include <unistd.h>
 #include <pthread.h>
+#include <time.h>
 NSYNC_CPP_USING_
 
 static nsync_mu mu;
@@ -28,52 +38,69 @@ static void *helper (void *a) {
 	if (counter) nsync_counter_add (counter, -1);
 	return NULL;
 }
-static double ms_since (nsync_time t0) {
-	nsync_time d = nsync_time_sub (nsync_time_now (), t0);
-	return d.tv_sec * 1000.0 + d.tv_nsec / 1e6;
+static double mono_ms (void) {
+	struct timespec ts;
+	clock_gettime (CLOCK_MONOTONIC, &ts);
+	return ts.tv_sec * 1000.0 + ts.tv_nsec / 1e6;
+}
+/* is the real clock still before dl?  (plain field comparison) */
+static int before_deadline (nsync_time dl) {
+	struct timespec now;
+	clock_gettime (CLOCK_REALTIME, &now);
+	return now.tv_sec < dl.tv_sec || (now.tv_sec == dl.tv_sec && now.tv_nsec < dl.tv_nsec);
 }
 int main (int argc, char **argv) {
 	const char *entry = argv[1], *kind = argv[2];
 	long long sec = atoll (argv[3]), nsec = atoll (argv[4]);
-	nsync_time dl, t0;
-	int ret = -1, is_timeout = 0, is_event = 0;
+	nsync_time dl;
+	double t_dl, t0, t1;
+	int ret = -1, is_timeout = 0, is_event = 0, early, with_helper;
 	pthread_t th;
-	if (strcmp (kind, "abs") == 0) { memset (&dl, 0, sizeof (dl)); dl.tv_sec = (time_t) sec; dl.tv_nsec = (long) nsec; }
-	else if (strcmp (kind, "rel") == 0) {
+	t_dl = mono_ms ();
+	if (strcmp (kind, "abs") == 0 || strcmp (kind, "absh") == 0) { memset (&dl, 0, sizeof (dl)); dl.tv_sec = (time_t) sec; dl.tv_nsec = (long) nsec; }
+	else if (strcmp (kind, "rel") == 0 || strcmp (kind, "relh") == 0) {
 		nsync_time now = nsync_time_now (), d;
 		memset (&d, 0, sizeof (d));
 		if (sec >= 0) { d.tv_sec = sec; d.tv_nsec = nsec; dl = nsync_time_add (now, d); }
 		else { d.tv_sec = -sec; d.tv_nsec = nsec; dl = nsync_time_sub (now, d); }
+	} else if (strcmp (kind, "maxm1") == 0) {
+		dl = nsync_time_no_deadline;
+		if (dl.tv_nsec > 0) dl.tv_nsec--; else { dl.tv_sec--; dl.tv_nsec = 999999999; }
 	} else { dl = nsync_time_no_deadline; }
-	if (strcmp (entry, "note") == 0) note = nsync_note_new (NULL, nsync_time_no_deadline);
+	with_helper = strcmp (kind, "abs") != 0 && strcmp (kind, "rel") != 0;
+	if (strcmp (entry, "note") == 0 || strcmp (entry, "waitn") == 0) note = nsync_note_new (NULL, nsync_time_no_deadline);
 	if (strcmp (entry, "counter") == 0) counter = nsync_counter_new (1);
-	if (strcmp (kind, "none") == 0) pthread_create (&th, NULL, helper, NULL);
-	t0 = nsync_time_now ();
+	if (with_helper) pthread_create (&th, NULL, helper, NULL);
+	t0 = mono_ms ();
 	if (strcmp (entry, "cv") == 0) {
 		nsync_mu_lock (&mu);
 		ret = 0;
 		while (!flag && ret == 0) ret = nsync_cv_wait_with_deadline (&cv, &mu, dl, NULL);
+		t1 = mono_ms (); early = before_deadline (dl);
 		is_timeout = (ret == ETIMEDOUT); is_event = (ret == 0 && flag);
 		nsync_mu_unlock (&mu);
 	} else if (strcmp (entry, "mu") == 0) {
 		nsync_mu_lock (&mu);
 		ret = nsync_mu_wait_with_deadline (&mu, &cond_flag, NULL, NULL, dl, NULL);
+		t1 = mono_ms (); early = before_deadline (dl);
 		is_timeout = (ret == ETIMEDOUT); is_event = (ret == 0 && flag);
 		nsync_mu_unlock (&mu);
 	} else if (strcmp (entry, "note") == 0) {
 		ret = nsync_note_wait (note, dl);
+		t1 = mono_ms (); early = before_deadline (dl);
 		is_timeout = (ret == 0); is_event = (ret != 0);
 	} else if (strcmp (entry, "counter") == 0) {
 		ret = (int) nsync_counter_wait (counter, dl);
+		t1 = mono_ms (); early = before_deadline (dl);
 		is_timeout = (ret != 0); is_event = (ret == 0);
 	} else if (strcmp (entry, "waitn") == 0) {
 		struct nsync_waitable_s w, *pw = &w;
-		note = nsync_note_new (NULL, nsync_time_no_deadline);
-		if (strcmp (kind, "none") == 0) { pthread_t t2; pthread_create (&t2, NULL, helper, NULL); }
 		w.v = note; w.funcs = &nsync_note_waitable_funcs;
 		ret = nsync_wait_n (NULL, NULL, NULL, dl, 1, &pw);
+		t1 = mono_ms (); early = before_deadline (dl);
 		is_timeout = (ret == 1); is_event = (ret == 0);
 	} else return 2;
-	printf ("%s elapsed_ms=%.1f ret=%d\n", is_timeout ? "TIMEOUT" : is_event ? "EVENT" : "OTHER", ms_since (t0), ret);
+	printf ("%s elapsed_ms=%.1f ret=%d early=%d since_dl_ms=%.1f\n", is_timeout ? "TIMEOUT" : is_event ? "EVENT" : "OTHER",
+		t1 - t0, ret, is_timeout && early, t1 - t_dl);
 	return 0;
 }
